@@ -166,7 +166,7 @@ Proof.
   { unfold eff_pshapes. destruct (skipped c p); [reflexivity|].
     rewrite zlen_map, slots_ok_init by exact Hp. reflexivity. }
   destruct (has_diag c).
-  - cbn [qv_f32 qv]. rewrite list_eqb_z_refl. cbn [obind]. rewrite G. reflexivity.
+  - cbn [qv_flt qv]. rewrite list_eqb_z_refl. cbn [obind]. rewrite G. reflexivity.
   - cbn [qv_empty qv empty_list obind]. rewrite G. reflexivity.
 Qed.
 
